@@ -3,8 +3,9 @@
 Real OS threads are used, but exactly one holds the *baton* at any time, so an execution is a
 deterministic function of the scheduling strategy. Cooperative Lock/RLock/Thread are written
 here; Condition/Event/Semaphore are CPython's own source executed on top of them (so the
-behaviour of e.g. an interrupted `Condition.wait` is CPython's). A `sys.settrace` function
-offers a preemption opportunity at every line (or bytecode) of the files in the preemption set.
+behaviour of e.g. an interrupted `Condition.wait` is CPython's). sys.monitoring LINE (or
+INSTRUCTION) events offer a preemption opportunity at every line (or bytecode) of the files in
+the preemption set.
 """
 import _thread
 import collections
@@ -15,6 +16,10 @@ import sys
 import threading as _rt
 import traceback
 import types
+
+
+_DEBUG = bool(os.environ.get('VERIF_DEBUG_LOCKS'))
+_HIST = {}
 
 
 class DeadlockError(BaseException):
@@ -163,6 +168,7 @@ class WithFaults(Strategy):
                n-th logged event (1-based, any kind in `interrupt_kinds`) has happened and `delay`
                further scheduler steps have passed
              | ("site", k)  at the k-th injection site the main thread passes (primitive entry)
+             | ("site_running", k)  at the k-th such site passed while a call is executing
     spawn_fail: set of 0-based thread start indices for which Thread.start raises RuntimeError
     """
 
@@ -202,7 +208,9 @@ class WithFaults(Strategy):
 
     def interrupt_now(self, s, kind, info):
         it = self.interrupt
-        if self.fired or not it or it[0] != "site":
+        if self.fired or not it or it[0] not in ("site", "site_running"):
+            return False
+        if it[0] == "site_running" and s.running_calls <= 0:
             return False
         self._sites += 1
         if self._sites == it[1]:
@@ -237,6 +245,7 @@ class Scheduler:
         self.events = []
         self.switches = 0
         self.preemptions = 0
+        self.running_calls = 0
         self.max_runnable = 1
         self.settle_main = False  # after an interrupt: run main until it first blocks
         self.dead = None  # ("deadlock"|"budget", details) once the execution is stuck
@@ -244,7 +253,6 @@ class Scheduler:
         self.interrupts_delivered = 0
         self.spawn_index = 0
         self.sched_log = []  # (step, from, to)
-        self._flags = {}
         self._idle_advances = 0
         self._kind_counts = collections.Counter()
         self.ns = _make_namespace(self)
@@ -257,6 +265,10 @@ class Scheduler:
         kw["th"] = self.current.id if self.current else 0
         self.events.append(kw)
         self._kind_counts[ev] += 1
+        if ev == "start":
+            self.running_calls += 1
+        elif ev == "end":
+            self.running_calls -= 1
         return kw
 
     def event_count(self, kinds):
@@ -338,6 +350,8 @@ class Scheduler:
             return
         self._check_budget()
         cur = self.current
+        if _DEBUG and cur.obj.ident != _thread.get_ident():
+            sys.stderr.write("ROGUE in point: current=%r me=%r kind=%s\n%s\n" % (cur, [t for t in self.threads if t.obj.ident == _thread.get_ident()], kind, "".join(traceback.format_stack(limit=12))))
         if cur.is_main and inject:
             if self.pending_interrupt or self.strategy.interrupt_now(self, kind, info):
                 self.pending_interrupt = False
@@ -361,6 +375,8 @@ class Scheduler:
         """Block the current thread until pred() holds (True) or the virtual timeout expires
         (False)."""
         cur = self.current
+        if _DEBUG and cur.obj.ident != _thread.get_ident():
+            sys.stderr.write("ROGUE in block_until: current=%r me=%r\n%s\n" % (cur, [t for t in self.threads if t.obj.ident == _thread.get_ident()], "".join(traceback.format_stack(limit=12))))
         if pred():
             return True
         if self.dead:
@@ -440,25 +456,9 @@ class Scheduler:
         self.current = nxt
         nxt.baton.release()
 
-    # ---- tracing ----
-    def _wants(self, filename):
-        f = self._flags.get(filename)
-        if f is None:
-            f = any(filename.endswith(sfx) for sfx in self.preempt_files)
-            self._flags[filename] = f
-        return f
-
-    def _global_trace(self, frame, event, arg):
-        if not self._wants(frame.f_code.co_filename):
-            return None
-        if self.opcode:
-            frame.f_trace_opcodes = True
-        return self._local_trace
-
-    def _local_trace(self, frame, event, arg):
-        if event == ("opcode" if self.opcode else "line"):
-            self.point("line", None)
-        return self._local_trace
+    # ---- preemption points: see _Monitor below ----
+    def _on_line(self):
+        self.point("line", None)
 
     # ---- running ----
     def run(self, fn):
@@ -469,7 +469,7 @@ class Scheduler:
         self.current = main
         out = {"outcome": None, "value": None, "exc": None}
         patches = _install(self)
-        sys.settrace(self._global_trace)
+        _Monitor.activate(self)
         try:
             try:
                 out["value"] = fn()
@@ -485,7 +485,6 @@ class Scheduler:
             out["seq_at_return"] = self.seq
             out["alive_at_return"] = [t.id for t in self.threads if not t.is_main and t.started and not t.done]
             if not self.dead:
-                sys.settrace(None)
                 try:
                     self.block_until(
                         lambda: all(t.done or not t.started for t in self.threads if not t.is_main),
@@ -495,7 +494,7 @@ class Scheduler:
                     pass
             out["events_after_return"] = self.seq - out["seq_at_return"]
         finally:
-            sys.settrace(None)
+            _Monitor.deactivate(self)
             _uninstall(patches)
         out["dead"] = self.dead
         out["steps"] = self.steps
@@ -504,6 +503,97 @@ class Scheduler:
         out["threads"] = len(self.threads)
         out["leaked"] = [t.id for t in self.threads if not t.is_main and t.started and not t.done]
         return out
+
+
+# --------------------------------------------------------------------------------------
+# preemption points via sys.monitoring (PEP 669)
+
+
+class _Monitor:
+    """LINE (and, for selected code objects, INSTRUCTION) events of the code objects of the files in
+    the preemption set call `point()` of the active scheduler. Events are installed once per process
+    and never changed afterwards: re-instrumenting code that parked threads are executing (and
+    the legacy `f_trace_opcodes` path) crashed CPython 3.12.1 in this harness."""
+
+    TOOL = 3
+    files = None
+    opcode = None
+    active = None
+    n_codes = 0
+
+    @classmethod
+    def _codes_of(cls, obj, seen, out):
+        co = getattr(obj, "__code__", None)
+        if co is None and isinstance(obj, types.CodeType):
+            co = obj
+        if co is not None:
+            if id(co) in seen:
+                return
+            seen.add(id(co))
+            out.append(co)
+            for c in co.co_consts:
+                if isinstance(c, types.CodeType):
+                    cls._codes_of(c, seen, out)
+            return
+        if isinstance(obj, type):
+            for v in list(vars(obj).values()):
+                if isinstance(v, (staticmethod, classmethod)):
+                    v = v.__func__
+                if isinstance(v, property):
+                    for f in (v.fget, v.fset, v.fdel):
+                        if f is not None:
+                            cls._codes_of(f, seen, out)
+                elif isinstance(v, (types.FunctionType, type)):
+                    if getattr(v, "__module__", None) == obj.__module__:
+                        cls._codes_of(v, seen, out)
+
+    @classmethod
+    def setup(cls, files, opcode):
+        files = tuple(files)
+        if cls.files is not None:
+            if cls.files != files or cls.opcode != opcode:
+                raise RuntimeError(
+                    f"preemption set is fixed per process: have {cls.files}/{cls.opcode}, asked {files}/{opcode}"
+                )
+            return
+        mon = sys.monitoring
+        mon.use_tool_id(cls.TOOL, "vf-detsched")
+        E = mon.events
+        out, seen = [], set()
+        for name, mod in list(sys.modules.items()):
+            f = getattr(mod, "__file__", None)
+            if not f or not any(f.endswith(sfx) for sfx in files):
+                continue
+            for v in list(vars(mod).values()):
+                if isinstance(v, (types.FunctionType, type)) and getattr(v, "__module__", None) == mod.__name__:
+                    cls._codes_of(v, seen, out)
+        mon.register_callback(cls.TOOL, E.LINE, cls._line)
+        if opcode:
+            mon.register_callback(cls.TOOL, E.INSTRUCTION, cls._line)
+        for co in out:
+            ev = E.LINE
+            if opcode and not (co.co_flags & 0x20):  # not for generator code (worker_pool)
+                ev = E.INSTRUCTION
+            mon.set_local_events(cls.TOOL, co, ev)
+        cls.files, cls.opcode, cls.n_codes = files, opcode, len(out)
+
+    @classmethod
+    def _line(cls, code, where):
+        s = cls.active
+        if s is not None:
+            cur = s.current
+            if cur is not None and cur.obj is not None and cur.obj.ident == _thread.get_ident():
+                s.point("line", None)
+
+    @classmethod
+    def activate(cls, s):
+        cls.setup(s.preempt_files, s.opcode)
+        cls.active = s
+
+    @classmethod
+    def deactivate(cls, s):
+        if cls.active is s:
+            cls.active = None
 
 
 # --------------------------------------------------------------------------------------
@@ -532,21 +622,33 @@ def _make_namespace(s: Scheduler):
             self.held = False
 
         def acquire(self, blocking=True, timeout=-1):
-            s.point("acquire", None, inject=True)
+            # No interrupt injection into Condition's internal re-acquire of its lock at the end
+            # of wait(): CPython's Condition.wait leaves the `with` block without holding the
+            # lock if a signal lands exactly there (stdlib fragility, not uberjob's behaviour).
+            inj = sys._getframe(1).f_code.co_name != "_acquire_restore"
+            s.point("acquire", None, inject=inj)
             if not self.held:
                 self.held = True
+                if _DEBUG:
+                    _HIST.setdefault(id(self), []).append(("ACQ-fast", s.current.id, _thread.get_ident() == s.current.obj.ident, s.steps))
                 return True
             if not blocking:
                 return False
-            ok = s.block_until(lambda: not self.held, None if timeout is None or timeout < 0 else timeout, what=self)
+            ok = s.block_until(lambda: not self.held, None if timeout is None or timeout < 0 else timeout, what=self, inject=inj)
             if ok:
                 self.held = True
+                if _DEBUG:
+                    _HIST.setdefault(id(self), []).append(("ACQ-slow", s.current.id, _thread.get_ident() == s.current.obj.ident, s.steps))
                 return True
             return False
 
         def release(self):
             if not self.held:
+                if _DEBUG:
+                    sys.stderr.write("LOCKHIST %r\n" % (_HIST.get(id(self)),))
                 raise RuntimeError("release unlocked lock")
+            if _DEBUG:
+                _HIST.setdefault(id(self), []).append(("rel", s.current.id, s.steps, [f"{f.filename.rsplit('/',1)[-1]}:{f.lineno}" for f in traceback.extract_stack(limit=5)[:-1]]))
             self.held = False
             s.point("release", None)
 
@@ -555,6 +657,8 @@ def _make_namespace(s: Scheduler):
 
         def __enter__(self):
             self.acquire()
+            if _DEBUG:
+                _HIST.setdefault(id(self), []).append(("acq", s.current.id, s.steps, [f"{f.filename.rsplit('/',1)[-1]}:{f.lineno}" for f in traceback.extract_stack(limit=5)[:-1]]))
             return True
 
         def __exit__(self, *a):
@@ -641,11 +745,7 @@ def _make_namespace(s: Scheduler):
             ts.baton.acquire()
             try:
                 if not s.dead:
-                    sys.settrace(s._global_trace)
-                    try:
-                        _rt.Thread.run(self)
-                    finally:
-                        sys.settrace(None)
+                    _rt.Thread.run(self)
             except DeadlockError:
                 return
             finally:
